@@ -46,7 +46,7 @@ TRUSTED_BASE = [
 logging.disable(logging.CRITICAL)
 WORLD_SPECS = [
     {"seed": 0, "centred3": True, "centred2": False},
-    {"seed": 1, "centred3": False, "centred2": True, "n2": 9, "n3": 10},
+    {"seed": 1, "centred3": False, "centred2": True, "n2": 9, "n3": 10, "tperm": True},
     {"seed": 2, "centred3": True, "centred2": True, "n2": 11, "n3": 8, "nframes": 4},
     {"seed": 3, "centred3": False, "centred2": False, "n2": 8, "n3": 11},
 ]
@@ -221,6 +221,10 @@ class Monitor:
         o = os.path.join(W.tmp, f"out{self.nout}")
         before = state(W)
         status, res, call = "ok", None, None
+        if getattr(self, "hostile", False):
+            # process-global numpy print options (a user's own, or left behind by another routine): nothing returned or written may
+            # depend on them — in a hostile session every call starts under settings that abbreviate arrays of more than 4 elements
+            np.set_printoptions(threshold=4, edgeitems=1, linewidth=30, precision=3)
         try:
             with np.errstate(all="ignore"):
                 import warnings
@@ -233,6 +237,8 @@ class Monitor:
         after = state(W)
         self.calls += 1
         case = {"world": spec, "entry": name, "idx": idx}
+        if getattr(self, "hostile", False):
+            case["hostile"] = True
         mutated, rebound, new_attr = diff_state(before, after)
         # --- inputs bit-for-bit unchanged
         for pth in rebound + new_attr:
@@ -320,7 +326,7 @@ class Monitor:
     def all_calls(self):
         return [(n, i) for n, bs in self.E.items() for i in range(len(bs))]
 
-    def session(self, wi, order):
+    def session(self, wi, order, hostile=False):
         """one session on the shared world `wi`; analysis objects are rebuilt lazily inside the session, so object state
         left by one session cannot hide a history dependence in the next"""
         self.world(wi).objs.clear()
@@ -330,9 +336,12 @@ class Monitor:
         for name in [n for n in sys.modules if n == "PyMatterSim" or n.startswith("PyMatterSim.")]:
             del sys.modules[name]
         hist = []
+        self.hostile = hostile
+        np.set_printoptions(edgeitems=3, infstr="inf", linewidth=75, nanstr="nan", precision=8, suppress=False, threshold=1000, formatter=None)
         for (n, i) in order:
             self.call(wi, n, i, hist)
             hist.append((n, i))
+        self.hostile = False
 
 
 def correspond(run):
@@ -349,10 +358,10 @@ def correspond(run):
         for wi in range(nworlds):
             # every routine twice in a row, then again inside shuffled interleavings on the same shared objects
             M.session(wi, [c for c in calls for _ in (0, 1)])
-            for _ in range(2 if run.tier == "quick" else 3):
+            for k in range(2 if run.tier == "quick" else 3):
                 order = list(calls)
                 run.rng.shuffle(order)
-                M.session(wi, order)
+                M.session(wi, order, hostile=(k == 1))       # one interleaving per world under hostile numpy print options
         if run.tier == "thorough":
             for k in range(200):
                 wi = k % nworlds
@@ -449,6 +458,7 @@ def search(run, broken):
                 for n in list(missing):
                     for i in range(len(M.E.get(n, []))):
                         M.session(wi, [(n, i), (n, i)])
+                        M.session(wi, [(n, i)], hostile=True)
                 for key, why, c in M.failing:
                     run.violation(key, why, {"case": c})
                     found_any = True
@@ -497,7 +507,7 @@ def replay(run, rp):
             return False
         if c.get("kind") == "repeat":
             M.session(wi, [tuple(h) for h in c.get("ref_history", [])] + [(c["entry"], c["idx"])])
-            M.session(wi, [tuple(h) for h in c.get("history", [])] + [(c["entry"], c["idx"])])
+            M.session(wi, [tuple(h) for h in c.get("history", [])] + [(c["entry"], c["idx"])], hostile=bool(c.get("hostile")))
         else:
             M.session(wi, [(c["entry"], c["idx"]), (c["entry"], c["idx"])])
         return any(k == rp.get("key") for k, _, _ in M.failing)
